@@ -498,6 +498,11 @@ class XMIResource(Resource):
                         frag, cref = result
                         if cref:
                             crossref.append((i, frag))
+                        elif ' ' in frag:
+                            # 'prefix:Type uri#fragment' (an element of a
+                            # registered metamodel) cannot sit in a blank
+                            # separated list: written as an href element
+                            crossref.append((i, frag.split(' ', 1)[1]))
                         else:
                             embedded.append(frag)
                     if embedded:
